@@ -220,6 +220,66 @@ CLAIMS = {
         note="Trusted: Keras deserialisation through custom_objects. Not "
              "decided: bit-identical predictions, HDF5 I/O.",
         ref="DESIGN.md section 3 C13"),
+    "C11": dict(
+        technique="partial evaluation of each layer's call() with symbolic "
+                  "weights, opaque quantizers and tagged geometry; "
+                  "structural inspection of the resulting term; AST rule "
+                  "for dead constructor options",
+        text="For 13 layer classes and both 'all quantizers set' / 'none': "
+             "every weight reaches the backend op only through its own "
+             "quantizer (raw when unset) and every weight is used; the "
+             "activation is applied last on a value containing the bias; "
+             "the backend convolution receives the layer's own strides / "
+             "padding / dilation / data_format; no constructor option is "
+             "dropped; get_quantizers() returns the applied quantizers in "
+             "weight order.",
+        note="Trusted: Keras backend ops are uninterpreted - equality with "
+             "the stock layer follows from equal arguments. Not decided: "
+             "numerical equality.",
+        ref="DESIGN.md section 3 C11"),
+    "C14": dict(
+        technique="partial evaluation of the export on synthetic layers "
+                  "with symbolic weights and opaque quantizers; list-shape "
+                  "and normal-form comparison; quantizer order vs Keras "
+                  "weight order by class model",
+        text="signs/scales stay index-aligned with the weights; "
+             "set_weights receives each quantizer applied once to its "
+             "weight; quantizer order matches the Keras weight order for "
+             "every exporting class; po2 sign/exponent forms; auto_po2 "
+             "scale x integer identity; batch-norm fusing algebra for all "
+             "scale/center/use_bias/inverse-quantizer combinations.",
+        note="Trusted: the Keras weight-order table. Not decided: "
+             "predictions unchanged / second export no-op (numeric).",
+        ref="DESIGN.md section 3 C14"),
+    "C15": dict(
+        technique="partial evaluation of the folded layers in inference "
+                  "mode with symbolic parameters; polynomial normal-form "
+                  "identity with the folding formulas; interpreted "
+                  "unfolding with Keras stubbed",
+        text="Folded kernel and bias equal the documented formulas in call() "
+             "and get_folded_weights() for both classes, both folding "
+             "modes, gamma on/off, bias on/off; the quantizers are applied "
+             "to the folded values and the convolution keeps the layer's "
+             "geometry; unfolding copies shared config keys, forces "
+             "use_bias and takes get_folded_weights(); foldable classes "
+             "have folding arms.",
+        note="Not decided: numerical equality with conv followed by BN; "
+             "the training path.",
+        ref="DESIGN.md section 3 C15"),
+    "C18": dict(
+        technique="partial evaluation of the dense/conv arm of the "
+                  "data-type map with recording factories (def-use "
+                  "wiring); AST index rule for the channel loop",
+        text="Only the wiring clauses: which quantizers/shape feed the "
+             "multiplier, kernel accumulator and bias adder, what the entry "
+             "stores and what the outgoing edge receives; and that the "
+             "weight-based estimator loops over the output-channel axis. "
+             "The numeric bound itself is NOT decided.",
+        note="The bound (every pre-activation fits the reported "
+             "accumulator) composes C16/C17 arithmetic with concrete "
+             "tensors and is outside static reach; this check decides "
+             "necessary wiring conditions only.",
+        ref="DESIGN.md section 3 C18"),
 }
 
 PENDING = "rules for this property are not built yet in this revision of /verif"
